@@ -13,7 +13,7 @@ import (
 )
 
 // Version is bumped whenever generation changes; case lists record it.
-const Version = "g13"
+const Version = "g14"
 
 // Region of a case (chosen by index so that budgets per region are fixed).
 type Region int
